@@ -10,6 +10,10 @@ def run(ctx):
                           "s13_child_raises_caught", "s14_amo_exhaust", "s15_cb_uncaught", "s17_child_wfc_inside", "s19_wfcfail_then_wait",
                           {"nodes": [{"k": "step", "val": v} for v in (1, 2, 4)] + [{"k": "wait"}, {"k": "step", "val": 5}, {"k": "step", "val": 6}]},
                           {"nodes": [{"k": "child", "body": [{"k": "step", "val": 3}, {"k": "step", "val": 9}]}, {"k": "wait"}, {"k": "step", "val": 0}]},
+                          # failures whose exception carries an empty / no message (a falsy field of the recorded error)
+                          {"nodes": [{"k": "step", "fail": -1, "max": 1, "caught": True, "errmsg": ""}, {"k": "wait"},
+                                     {"k": "step", "fail": -1, "max": 2, "caught": True, "errmsg": "<none>", "errtype": "ValueError"}, {"k": "wait"}]},
+                          {"nodes": [{"k": "child", "caught": True, "body": [{"k": "step", "fail": -1, "max": 1, "errmsg": ""}]}, {"k": "wait"}, {"k": "step"}]},
                           # map / parallel: small and oversized (ReplayChildren) results, early completion, failures caught by class
                           {"nodes": [{"k": "map", "branches": [[{"k": "step", "val": 2}], [{"k": "step"}, {"k": "wait"}], [{"k": "step", "val": 6}]]},
                                      {"k": "wait"}, {"k": "step"}]},
